@@ -66,7 +66,7 @@ impl<S: ShortGroupSignatureScheme> BlindCredentialRequest<S> {
     /// Verify the signing request is well-formed
     pub fn verify(&self, issuer: &Issuer<S>) -> CredxResult<()> {
         let mut known_messages =
-            Vec::with_capacity(issuer.schema.claims.len() - self.blind_claim_labels.len());
+            Vec::with_capacity(self.blind_claim_labels.len());
         for label in &self.blind_claim_labels {
             if !issuer.schema.blind_claims.contains(label) {
                 return Err(Error::InvalidClaimData("claim is not blindable"));
